@@ -29,7 +29,11 @@ META = {
                    "_process_* handlers on symbolic bytes",
     "bounds": ["step: every state x symbolic byte x symbolic buffer (induction over stream length)",
                "frames: every LUBA command code (symbolic) x payload length 1..23 x symbolic payload",
-               "streams: LUBA <= 5 (thorough 7) symbolic bytes, SCI <= 10 (thorough 15), split point symbolic"],
+               "streams: LUBA <= 5 (thorough 7) symbolic bytes, SCI <= 10 (thorough 15), split point symbolic",
+               "whole LUBA frames with payload 2/7/13/20/23 (thorough: every length) delivered in two reads "
+               "split at a solver-chosen position and one byte per read",
+               "'frame observed' messages carrying any 16- / 24-bit frame through the receiver with the real "
+               "decoder behind it (all other cases use a recording decode stub)"],
     "stubs": ["isinstance/int/bytes shims", "EnumProxy for LubaCmd / SCIRS232Code / ErrorType",
               "command.Command.from_frame replaced by a recording stub inside dali.driver.serial"],
     "outside": ["streams containing a checksum-valid frame whose payload is malformed for its type (set aside "
